@@ -448,6 +448,45 @@ func TestCheck(t *testing.T) {
 	checkLists("after-resign")
 	checkVerdicts("after-resign", 20)
 
+	// aged lists: the stored list credentials (document AND expiry column) are made to look like what a quiet page holds
+	// after 23 h 40 min, 25 h and 29 h without a revocation. What the node then serves must be a fresh, valid list
+	// (the rewritten stored document no longer carries a valid proof, so serving it shows up twice: not valid, about to expire).
+	for _, remaining := range []time.Duration{20 * time.Minute, -time.Hour, -5 * time.Hour} {
+		type row struct {
+			SubjectID string
+			Raw       string
+		}
+		var rows []row
+		if err := db.Raw("SELECT subject_id, raw FROM status_list_credential").Scan(&rows).Error; err != nil {
+			r.Fatalf("reading stored lists: %v", err)
+		}
+		aged := 0
+		for _, rw := range rows {
+			if _, mine := model[rw.SubjectID]; !mine {
+				continue
+			}
+			var doc map[string]any
+			if err := json.Unmarshal([]byte(rw.Raw), &doc); err != nil {
+				r.Fatalf("stored list is not JSON: %v", err)
+			}
+			exp := time.Now().Add(remaining).UTC().Truncate(time.Second)
+			doc["expirationDate"] = exp.Format(time.RFC3339)
+			doc["issuanceDate"] = exp.Add(-24 * time.Hour).Format(time.RFC3339)
+			raw, _ := json.Marshal(doc)
+			if res := db.Exec("UPDATE status_list_credential SET expires = ?, raw = ? WHERE subject_id = ?", exp.Unix(), string(raw), rw.SubjectID); res.Error != nil || res.RowsAffected != 1 {
+				r.Fatalf("ageing stored list: %v rows=%d", res.Error, res.RowsAffected)
+			}
+			aged++
+		}
+		if aged == 0 {
+			r.Fatalf("no stored list found to age")
+		}
+		r.Count("lists_aged", aged)
+		step := "aged-" + remaining.String()
+		checkLists(step)
+		checkVerdicts(step, 6)
+	}
+
 	// signed revocation documents (the did:nuts network form), with hosted did:web parties so that every forgery can be signed for real
 	signedRevocations(r, n, host)
 
